@@ -519,6 +519,13 @@ theorem step_reported (g : Cfg) (s : S) (op : Op) (hd : InvD g s) (ho : (step g 
     · simp
     · have := D_pAddReadWrite g { s with isWAdded := true, connecting := true }
       simp only [D, Prod.mk.injEq] at this; simp [this.2.2.2.2.2]
+  | registerDialNow =>
+    show (registerDialNow g s).accepted = s.accepted ++ []
+    unfold registerDialNow
+    split
+    · simp
+    · have := D_pAddReadWrite g { s with isWAdded := true, idle := true }
+      simp only [D, Prod.mk.injEq] at this; simp [this.2.2.2.2.2]
   | evTake o0 i e ks =>
     show (evTake g s (o0 && (g.mode != .et || s.edgeDue)) i e ks).accepted = s.accepted ++ []
     generalize (o0 && (g.mode != .et || s.edgeDue)) = o
